@@ -817,39 +817,45 @@ Proof.
   rewrite D. reflexivity.
 Qed.
 
-(* a sufficient structural condition: the two components are siblings and exactly one public interface is `out`,
-   or exactly one of them is the parent of the other *)
-Definition related_b vars names ps (c1 v1 c2 v2 : Z) : bool :=
-  match vidx vars c1 v1, vidx vars c2 v2 with
-  | Some i1, Some i2 =>
-      if optZ_eqb (parent_of names ps c1) (parent_of names ps c2)
-      then xorb (is_out (pub_of vars i1)) (is_out (pub_of vars i2))
-      else xorb (optZ_eqb (Some c1) (parent_of names ps c2)) (optZ_eqb (Some c2) (parent_of names ps c1))
-  | _, _ => true
-  end.
+(* the decision is symmetric unless the encapsulation hierarchy makes each component the parent of the other *)
+Definition mutual_b names ps (c1 c2 : Z) : bool :=
+  negb (optZ_eqb (parent_of names ps c1) (parent_of names ps c2)) &&
+  optZ_eqb (Some c1) (parent_of names ps c2) && optZ_eqb (Some c2) (parent_of names ps c1).
 
 Lemma optZ_eqb_sym a b : optZ_eqb a b = optZ_eqb b a.
 Proof. destruct a, b; cbn; auto. apply Z.eqb_sym. Qed.
 
-Lemma direction_sym vars names ps c1 v1 c2 v2 : related_b vars names ps c1 v1 c2 v2 = true ->
+Lemma direction_sym vars names ps c1 v1 c2 v2 : mutual_b names ps c1 c2 = false ->
   direction vars names ps c2 v2 c1 v1 = direction vars names ps c1 v1 c2 v2.
 Proof.
-  unfold related_b, direction. destruct (vidx vars c1 v1) as [i1|], (vidx vars c2 v2) as [i2|]; auto.
+  unfold mutual_b, direction. destruct (vidx vars c1 v1) as [i1|], (vidx vars c2 v2) as [i2|]; auto.
   rewrite (optZ_eqb_sym (parent_of names ps c2) (parent_of names ps c1)).
-  destruct (optZ_eqb (parent_of names ps c1) (parent_of names ps c2)).
-  - destruct (is_out (pub_of vars i1)), (is_out (pub_of vars i2)); cbn; auto; discriminate.
+  destruct (optZ_eqb (parent_of names ps c1) (parent_of names ps c2)); cbn [negb andb].
+  - intros _. destruct (pub_of vars i1), (pub_of vars i2); reflexivity.
   - destruct (optZ_eqb (Some c1) (parent_of names ps c2)), (optZ_eqb (Some c2) (parent_of names ps c1)); cbn;
       auto; discriminate.
 Qed.
 
-(* without the guard the claim is false: siblings A.x (public out, private in) and B.x (public out) --
-   the document loads when the connection is written B-A and is refused when it is written A-B *)
+Lemma ends_swap_guard mc ue us cs gs l1 k l2 :
+  (forall names vars ps, add_components (mkDoc mc ue us cs gs (l1 ++ k :: l2)) = OK (names, vars) ->
+     add_relationships names gs = OK ps -> mutual_b names ps (k_c1 k) (k_c2 k) = false) ->
+  load (mkDoc mc ue us cs gs (l1 ++ swap_conn k :: l2)) = load (mkDoc mc ue us cs gs (l1 ++ k :: l2)).
+Proof.
+  intros G. apply ends_swap_guarded. intros names vars ps A B p Hp.
+  unfold conn_pairs in Hp. apply in_map_iff in Hp. destruct Hp as (m & <- & _). cbn.
+  apply direction_sym. eapply G; eauto.
+Qed.
+
+(* without the guard the claim is false: two groups that make A the parent of B and B the parent of A (a cycle in
+   the encapsulation hierarchy, which the loader does not refuse); A.x private out, B.x public in: the connection
+   written A-B is resolved with A as the parent, written B-A with B as the parent and then names no direction *)
 Definition refute_doc (swap : bool) : doc :=
-  let k := mkConn 11 10 [(20, 20)] in
+  let k := mkConn 10 11 [(20, 20)] in
   mkDoc None None [(1, [])]
-        [mkComp 10 [mkDVar 20 1 None IOut IIn None] [] false false;
-         mkComp 11 [mkDVar 20 1 None IOut INone None] [] false false]
-        [] [if swap then swap_conn k else k].
+        [mkComp 10 [mkDVar 20 1 None INone IOut None] [] false false;
+         mkComp 11 [mkDVar 20 1 None IIn INone None] [] false false]
+        [mkGroup [0%Z] [CRef 10 [CRef 11 []]]; mkGroup [0%Z] [CRef 11 [CRef 10 []]]]
+        [if swap then swap_conn k else k].
 
 Lemma ends_swap_refuted : exists f e, load (refute_doc false) = OK f /\ load (refute_doc true) = Error e.
 Proof. do 2 eexists. split; vm_compute; reflexivity. Qed.
